@@ -114,6 +114,27 @@ HISTORY = {
     "C18-5": ("driver hung (the dispatcher was wedged by the second reload; no watchdog on the probe request)", "C18 driver: watchdog on the request that follows the reload signals: an agent that no longer answers is a reported input"),
     "C19-5": ("missed", "C19 driver: 40-80 hooks so that starting a round takes a while; the second change is sent as soon as the first hook of the round has logged its start; every hook must also be started at or after it"),
     "C20-5": ("caught", ""),
+    # round 6
+    "C01-6": ("caught", ""),
+    "C02-6": ("caught", ""),
+    "C03-6": ("missed", "C03 got an agent-level part (harness/main/c03_test.go, judged by Run/C04): ~75 names outside the grammar with the user's correct password through the agent's saslauthd socket with every service / realm choice (the realm equal to the tail of the login), basic-auth, the JSON API, an LDAP bind"),
+    "C04-6": ("translator only (the upgrade enqueue fact disappeared; no failing input)", "C04 driver: agents with local upgrades whose upgrade cannot be carried out ('.tmp' a regular file; a policy the old password does not meet): the correct password must still be accepted on every frontend"),
+    "C05-6": ("caught", ""),
+    "C06-6": ("missed", "C06 driver: every third sequence continues after a SIGHUP that switches to ANOTHER store directory (same listener, same session factory, the sessions handed out so far part of the history): logins, old-password updates and sessions judged by the model on the new directory"),
+    "C07-6": ("correspondence only (decode error class changed; no failing input)", "C07 driver: nonce||ciphertext of a valid token cut at every other offset and encoded as two fields again"),
+    "C08-6": ("correspondence only (read pattern changed; no failing input)", "trace scenarios: a record whose auxiliary data has a 70 000-byte line followed by further lines; Run/C08 requires of an acknowledged update that everything after the first line of the old file is in the new file byte for byte"),
+    "C09-6": ("missed", "tools/facts lists the package-level variables of the three Go packages and the fields of the structs the models describe (theories/StateInst.v): the models keep no state between operations other than those components; concurrency of library calls inside one process is not exercised at system-call level, so this seed is reported through the broken inventory only (no failing input)"),
+    "C10-6": ("translator only (the NewStore channel fact disappeared)", "C10 driver: 300 hooks, a modification immediately followed by a reload signal, every request kind probed with a watchdog, four rounds"),
+    "C11-6": ("missed", "C11 got a web part (prop tag C11W: three request sequences of the C06 driver judged by Run/C06): a request that omits a member after another connection's request set it"),
+    "C12-6": ("missed", "C12 driver: remote mode across an outage of the upgrade master (503 for twelve logins, then healthy and idle): the next upgradeable login must be upgraded on the master"),
+    "C13-6": ("missed", "C13 driver: the slice a Marshal call returned is looked at again after the next Marshal (either message kind)"),
+    "C14-6": ("translator only (salt size fact)", "C14 store driver: 16 goroutines write through one Dir for 6 rounds (argon2id and scrypt): no salt of the run is used twice, every record verifies; StateInst inventory"),
+    "C15-6": ("caught", ""),
+    "C16-6": ("missed", "C16 agent part: the built binary's `authenticate` with local upgrades and a default parameter set that hashes for about half a second: the work area must be empty after the completed command"),
+    "C17-6": ("missed", "C17 driver: four reload signals (same configuration, a broken file, a new default, back) with weak and strong writes after each - Store interface and web API with the admin session obtained before"),
+    "C18-6": ("missed", "C18 driver: every other reload scenario runs with local upgrades (upgrade queue = update queue) and has password changes among the requests in flight"),
+    "C19-6": ("translator only (kill-timer fact disappeared)", "thorough tier only: a hook that ignores SIGTERM must be gone 70 s after its start (the quick tier reports the broken fact, no failing input)"),
+    "C20-6": ("correspondence only (no failing input)", "C20: the reply body delivered in two or three segments, split at every position where a later segment begins with \"OK\""),
 }
 
 
